@@ -260,6 +260,7 @@ fn silent_peer(ctx: &Ctx) -> Outcome {
         st(AckSpec::Cur, WndSpec::Default),
         Act::Deliver(Pkt::Fin { off: 0, ack: AckSpec::All }),
         Act::Deliver(Pkt::Fin { off: 0, ack: AckSpec::Cur }),
+        st(AckSpec::Beyond, WndSpec::Default),
         Act::Tick,
         Act::Sleep(13_000),
     ];
@@ -338,7 +339,7 @@ fn silent_peer(ctx: &Ctx) -> Outcome {
     }
     part.distinct_nontrivial = classes.len() as u64;
     part.distinct_outcomes = classes.len() as u64;
-    part.bound = format!("all sequences of <= {depth} actions over [write 40 B into a 20 B peer window, drop writer, drop reader, ACK-all wnd 0, ACK-all wnd 5, ACK+1 wnd 0, duplicate ACK, the peer's FIN (acknowledging everything / nothing new), timer] that drop both halves, each followed by 13 s without any packet from the peer; outcome classes = time from letting go to the end of the connection in 0.5 s buckets");
+    part.bound = format!("all sequences of <= {depth} actions over [write 40 B into a 20 B peer window, drop writer, drop reader, ACK-all wnd 0, ACK-all wnd 5, ACK+1 wnd 0, duplicate ACK, the peer's FIN (acknowledging everything / nothing new), an ACK for data never sent, timer] that drop both halves, each followed by 13 s without any packet from the peer; outcome classes = time from letting go to the end of the connection in 0.5 s buckets");
     part.samples.push(json!({"history": [0, 7, 1, 2, 3, 8]}));
     out.parts.push(part);
     out
